@@ -733,6 +733,10 @@ def parse_iso(value):
                 value = value.split("+")[0]
                 if not 10 <= len(value) <= 28:
                     return None
+            elif len(value) > 16 and value[-6] == "-" and value[-3] == ":":
+                value = value[:-6]
+            elif len(value) > 16 and value[-5] == "-" and value[-5:].replace("-", "").isdigit():
+                value = value[:-5]
             val_len = len(value)
             if value[4] != "-" or value[7] != "-":
                 return None
